@@ -1,9 +1,9 @@
 """What MANIFEST.json claims (edited by hand; bin/gen_manifest.py renders it)."""
 HOOK_COMMITS = []
 ENGINES = [
- {"name": "TV", "path": "engine/tv", "serves_properties": ["C01","C02","C05","C06","C07","C09","C10","C11"], "kind_free_text": "real transformer on formulas with free leaves; independent FNode->z3 translation; z3 validity query per instance (all interpretations)"},
- {"name": "XH", "path": "engine/xh", "serves_properties": ["C02","C05"], "kind_free_text": "CrossHair symbolic execution of the real pySMT functions with symbolic payloads/selectors (z3 per path)"},
- {"name": "AZ", "path": "engine/az", "serves_properties": [], "kind_free_text": "Python-AST -> z3 encodings with ITE merging, regenerated from /repo source each run"},
+ {"name": "TV", "path": "engine/tv", "serves_properties": ["C01","C02","C05","C06","C07","C08","C09","C10","C11","C12","C13"], "kind_free_text": "real transformer on formulas with free leaves; independent FNode->z3 translation; z3 validity query per instance (all interpretations)"},
+ {"name": "XH", "path": "engine/xh", "serves_properties": ["C02","C05","C08"], "kind_free_text": "CrossHair symbolic execution of the real pySMT functions with symbolic payloads/selectors (z3 per path)"},
+ {"name": "AZ", "path": "engine/az", "serves_properties": ["C07","C13"], "kind_free_text": "Python-AST -> z3 encodings with ITE merging, regenerated from /repo source each run"},
 ]
 NOTES = "Solver-based checking of the real code; see DESIGN.md. Exit codes: 0 held, 1 reproduced unlisted violation, 2 harness error."
 NOT_APPLICABLE = {}
@@ -41,3 +41,18 @@ CHECKS = {
          "text": "model-by-model equisatisfiability decided by z3 with auxiliary symbols quantified, form recognisers, incl. re-used Ackermannizer instances",
          "note": "theory atoms opaque; <= 6 applications per symbol"},
 }
+
+CHECKS.update({
+ "C08": {"level": "translation_validation", "engine": "TV+XH",
+         "technique": "differential reading against z3's SMT-LIB front end with z3 validity per assertion; CrossHair on the tokenizer with symbolic input strings vs a reference lexer",
+         "text": "each accepted script's assertions proven equal to an independent reader's under all interpretations; malformed variants must be rejected; constructs accepted when the allow-list was frozen must stay accepted; tokenizer explored over all strings up to the length bound",
+         "note": "z3's reader stands in for the standard (where it rejects nothing is concluded); allow-list props/c08_accepted.json"},
+ "C12": {"level": "translation_validation", "engine": "TV",
+         "technique": "analyses vs independent recursive definitions; z3 validity for 'value depends only on reported free symbols' and 'truth value is a function of the reported atoms'",
+         "text": "definitional equality on ~6e4 grammar instances; two semantic clauses decided by z3 for all interpretations",
+         "note": "semantic clauses skipped above tree size 400"},
+ "C13": {"level": "model_checking", "engine": "AZ+TV",
+         "technique": "Theory/Logic order and selection code of pysmt/logics.py interpreted from source into z3 (all 2^12 flag vectors, all subsets of named logics); get_logic vs independent feature extraction",
+         "text": "order axioms, upper-bound and closest-logic properties are single z3 validity queries over the whole finite space; detection checked end to end on ~2e4 formulas",
+         "note": "AZ interpreter validated against the real code on all 72x72 pairs of named logics on every run; class invariant assumed"},
+})
